@@ -84,6 +84,31 @@ package asm
 //@   ensures len(ret1) == a.n
 //@   assigns nothing
 
+// ---- Clone / Append (C16) ----
+// mapeq(e.X, a.X): extensional equality of two label / dangling maps is written out below for each map.
+
+//@ func (*Emitter).Clone
+//@   property C16
+//@   ensures ret1.flagsTracker == a.flagsTracker && ret1.generateText == a.generateText && ret1.address == a.address && ret1.base == a.base && ret1.baseSet == a.baseSet
+//@   ensures ret1.n == 0 && len(ret1.lines) == 0 && aliases(ret1.code, target) && lo(ret1.code) == lo(target) && len(ret1.code) == len(target)
+//@   ensures !sameobj(ret1.labels, a.labels) && !sameobj(ret1.danglingS8, a.danglingS8) && !sameobj(ret1.danglingU16, a.danglingU16)
+//@   ensures all(k, string, has(ret1.labels, k) == has(a.labels, k) && (has(a.labels, k) ==> ret1.labels[k] == a.labels[k]))
+//@   ensures all(k, string, has(ret1.danglingS8, k) == has(a.danglingS8, k) && (has(a.danglingS8, k) ==> len(ret1.danglingS8[k]) == len(a.danglingS8[k])))
+//@   ensures all(k, string, all(j, int, has(a.danglingS8, k) && 0 <= j && j < len(a.danglingS8[k]) ==> ret1.danglingS8[k][j] == a.danglingS8[k][j]))
+//@   ensures all(k, string, has(ret1.danglingU16, k) == has(a.danglingU16, k) && (has(a.danglingU16, k) ==> len(ret1.danglingU16[k]) == len(a.danglingU16[k])))
+//@   ensures all(k, string, all(j, int, has(a.danglingU16, k) && 0 <= j && j < len(a.danglingU16[k]) ==> ret1.danglingU16[k][j] == a.danglingU16[k][j]))
+//@   assigns nothing
+//@   loop 1 invariant all(k, string, visited(1, k) ==> has(a.labels, k)) && all(k, string, has(e.labels, k) == visited(1, k)) && all(k, string, visited(1, k) ==> e.labels[k] == a.labels[k])
+//@   loop 1 modifies e.labels
+//@   loop 2 invariant all(k, string, visited(2, k) ==> has(a.danglingS8, k)) && all(k, string, has(e.danglingS8, k) == visited(2, k))
+//@   loop 2 invariant all(k, string, visited(2, k) ==> len(e.danglingS8[k]) == len(a.danglingS8[k]))
+//@   loop 2 invariant all(k, string, all(j, int, visited(2, k) && 0 <= j && j < len(a.danglingS8[k]) ==> e.danglingS8[k][j] == a.danglingS8[k][j]))
+//@   loop 2 modifies e.danglingS8
+//@   loop 3 invariant all(k, string, visited(3, k) ==> has(a.danglingU16, k)) && all(k, string, has(e.danglingU16, k) == visited(3, k))
+//@   loop 3 invariant all(k, string, visited(3, k) ==> len(e.danglingU16[k]) == len(a.danglingU16[k]))
+//@   loop 3 invariant all(k, string, all(j, int, visited(3, k) && 0 <= j && j < len(a.danglingU16[k]) ==> e.danglingU16[k][j] == a.danglingU16[k][j]))
+//@   loop 3 modifies e.danglingU16
+
 // ---- instruction methods (generated by /verif/tools/gen_asm_contracts.py from the method names) ----
 // classified: 90, uncovered by the naming grammar: none
 
